@@ -25,7 +25,7 @@ Lemma bridge_g_empty_dir {A B} (dirs : list A) (files : list B) : g_empty_dir di
 Proof. destruct dirs; destruct files; reflexivity. Qed.
 Lemma bridge_g_fix_empty fx : g_fix_empty fx = fx.
 Proof. reflexivity. Qed.
-Lemma bridge_repair_empty : repair_empty = FsRmdir.
+Lemma bridge_repair_empty : repair_empty = FsRemovedirs.
 Proof. reflexivity. Qed.
 Lemma bridge_g_count_wrong a b : g_count_wrong a b = negb (a =? b).
 Proof. reflexivity. Qed.
@@ -601,7 +601,7 @@ Proof.
   cbn [rows s_count s_size tree with_tree]. rewrite <- !app_assoc. reflexivity.
 Qed.
 
-Lemma check1_true s : check1 s true = (fixed FsRmdir s, report_fix s).
+Lemma check1_true s : check1 s true = (fixed FsRemovedirs s, report_fix s).
 Proof. unfold check1. rewrite bridge_repair_empty. apply check_with_true. Qed.
 
 (* ---------------- what survives a fixing check ---------------- *)
@@ -804,22 +804,21 @@ Proof.
   reflexivity.
 Qed.
 
-(* what the second check reports, exactly *)
-Lemma second_check s : rows_unique s ->
-  snd (check1 (fst (check1 s true)) false) = map WEmptyDir (cascade_dirs s).
+(* what the second check reported with the former repair os.rmdir (before commit 63db292), exactly *)
+Lemma second_check_rmdir s : rows_unique s ->
+  snd (check_with FsRmdir (fst (check_with FsRmdir s true)) false) = map WEmptyDir (cascade_dirs s).
 Proof.
-  intros Hu. rewrite check1_true. cbn [fst]. rewrite check1_false. cbn [snd].
+  intros Hu. rewrite check_with_true. cbn [fst]. rewrite check_with_false. cbn [snd].
   rewrite (second_report FsRmdir s Hu eq_refl). f_equal. unfold cascade_dirs.
   induction (root_subs (tree s)) as [|a l IH]; cbn [flat_map filter map]; [reflexivity|].
   rewrite residual_clean, IH. destruct (cascades (filenames s) a); reflexivity.
 Qed.
 
-(* C17_converges_partial, in its strongest form: an equivalence *)
-Lemma second_check_clean_iff s : rows_unique s ->
-  (snd (check1 (fst (check1 s true)) false) = [] <->
+Lemma second_check_rmdir_clean_iff s : rows_unique s ->
+  (snd (check_with FsRmdir (fst (check_with FsRmdir s true)) false) = [] <->
    forall d, In d (root_subs (tree s)) -> cascades (filenames s) d = false).
 Proof.
-  intros Hu. rewrite (second_check s Hu). unfold cascade_dirs. split.
+  intros Hu. rewrite (second_check_rmdir s Hu). unfold cascade_dirs. split.
   - intros H d Hd. destruct (cascades (filenames s) d) eqn:Hc; [|reflexivity]. exfalso.
     assert (Hin : In d (filter (cascades (filenames s)) (root_subs (tree s)))) by (apply filter_In; split; assumption).
     destruct (filter (cascades (filenames s)) (root_subs (tree s))); [destruct Hin|discriminate].
@@ -827,7 +826,7 @@ Proof.
     rewrite filter_as_flat_map. apply flat_map_nil. intros d Hd. rewrite (H d Hd). reflexivity.
 Qed.
 
-(* with os.removedirs in place of os.rmdir (the proposed patch) the second check is always clean *)
+(* with os.removedirs (any parent left empty is pruned) the second check is always clean *)
 Lemma second_check_patched s : rows_unique s ->
   snd (check_with FsRemovedirs (fst (check_with FsRemovedirs s true)) false) = [].
 Proof.
@@ -1047,11 +1046,14 @@ Proof. unfold rows_unique. cbn. constructor; [intros []|constructor]. Qed.
 Lemma d16_first : snd (check1 d16_state true) = [WUnknown 20; WEmptyDir 4; WEmptyDir 6].
 Proof. vm_compute. reflexivity. Qed.
 
-Lemma d16_second : snd (check1 (fst (check1 d16_state true)) false) = [WEmptyDir 3; WEmptyDir 5].
+(* regression: with the former repair os.rmdir the second check reported the emptied parents 3 and 5 *)
+Lemma d16_second_rmdir : snd (check_with FsRmdir (fst (check_with FsRmdir d16_state true)) false) = [WEmptyDir 3; WEmptyDir 5].
 Proof. vm_compute. reflexivity. Qed.
 
-Lemma converges_refuted : exists s, rows_unique s /\ snd (check1 (fst (check1 s true)) false) <> [].
-Proof. exists d16_state. split; [exact d16_unique|]. rewrite d16_second. discriminate. Qed.
+Lemma d16_second : snd (check1 (fst (check1 d16_state true)) false) = []
+  /\ root_subs (tree (fst (check1 d16_state true))) =
+     [ {| d1_id := 1; d1_files := []; d1_subs := [ {| d2_id := 2; d2_files := [ {| f_id := 10; f_size := 10; f_db := false |} ] |} ] |} ].
+Proof. split; vm_compute; reflexivity. Qed.
 
 (* the hypotheses of the positive statements are satisfiable by damaged states *)
 Definition ok_state : state :=
@@ -1066,12 +1068,10 @@ Definition ok_state : state :=
                                                {| d2_id := 3; d2_files := [] |} ] |};
                                {| d1_id := 4; d1_files := []; d1_subs := [] |} ] |} |}.
 Lemma ok_state_example :
-  rows_unique ok_state /\ (forall d, In d (root_subs (tree ok_state)) -> cascades (filenames ok_state) d = false)
-  /\ length (snd (check1 ok_state true)) = 9%nat /\ snd (check1 (fst (check1 ok_state true)) false) = [].
+  rows_unique ok_state /\ length (snd (check1 ok_state true)) = 9%nat /\ snd (check1 (fst (check1 ok_state true)) false) = [].
 Proof.
-  split; [|split; [|split]].
+  split; [|split].
   - unfold rows_unique. cbn. repeat constructor; cbn; intuition discriminate.
-  - intros d [H|[H|[]]]; subst d; vm_compute; reflexivity.
   - vm_compute. reflexivity.
   - vm_compute. reflexivity.
 Qed.
@@ -1088,14 +1088,18 @@ Proof. rewrite check1_true, check1_false. exact (report_fix_keys s k). Qed.
 Lemma check1_readable s : rows_unique s ->
   forall r f, In r (rows (fst (check1 s true))) -> r_file r = Some f ->
   lookup_file (tree (fst (check1 s true))) f = Some (r_size r).
-Proof. intros Hu. rewrite check1_true. exact (fixed_readable FsRmdir s Hu). Qed.
+Proof. intros Hu. rewrite check1_true. exact (fixed_readable FsRemovedirs s Hu). Qed.
 Lemma check1_preserves s : rows_unique s ->
   (forall r, In r (rows s) -> row_ok s r ->
      In r (rows (fst (check1 s true))) /\
      forall f, r_file r = Some f -> lookup_file (tree (fst (check1 s true))) f = lookup_file (tree s) f) /\
   (forall x, In x (all_files (tree s)) -> file_owned s x -> In x (all_files (tree (fst (check1 s true))))).
-Proof. intros Hu. rewrite check1_true. exact (fixed_preserves FsRmdir s Hu). Qed.
+Proof. intros Hu. rewrite check1_true. exact (fixed_preserves FsRemovedirs s Hu). Qed.
 Lemma check1_counters_fixed s :
   s_count (fst (check1 s true)) = row_count (fst (check1 s true)) /\
   s_size (fst (check1 s true)) = row_sum (fst (check1 s true)).
-Proof. rewrite check1_true. exact (fixed_counters FsRmdir s). Qed.
+Proof. rewrite check1_true. exact (fixed_counters FsRemovedirs s). Qed.
+
+(* C17_converges: the second check after a fixing check reports nothing *)
+Lemma check1_converges s : rows_unique s -> snd (check1 (fst (check1 s true)) false) = [].
+Proof. intros Hu. unfold check1. rewrite bridge_repair_empty. exact (second_check_patched s Hu). Qed.
